@@ -59,7 +59,20 @@ pub struct Case {
 
 pub fn decode(bytes: &[u8]) -> Case {
     let mut s = Src::new(bytes);
-    let initial = gen_text(&mut s, 30);
+    // one document in ten is 1-4 KiB long (about 40 bytes per line, line ends of all three kinds)
+    let initial = if s.chance(1, 10) {
+        let lines = 25 + s.below(80);
+        let mut t = String::new();
+        for _ in 0..lines {
+            t.push_str(&gen_text(&mut s, 4));
+            let k = s.below(38);
+            t.extend("proc main() { x := 1; } // ä€😀 filler".chars().take(k));
+            t.push_str(*s.pick(&["\n", "\r\n", "\r\n", "\r", "\n"]));
+        }
+        t
+    } else {
+        gen_text(&mut s, 30)
+    };
     let mut text = initial.clone();
     let mut labels = Vec::new();
     let n = 1 + s.below(6);
@@ -141,11 +154,14 @@ impl Check for Sync {
         "didchange-histories"
     }
     fn max_len(&self) -> usize {
-        600
+        900
     }
     fn run(&self, bytes: &[u8]) -> CaseResult {
         let case = decode(bytes);
         let mut r = CaseResult::new(fnv(format!("{:?}", describe_case(&case)).as_bytes()));
+        if case.initial.len() >= 1024 {
+            r.label("document-of-1-KiB-or-more");
+        }
         for l in &case.labels {
             r.label(*l);
         }
